@@ -127,7 +127,8 @@ def render(style, vals):
 
 
 STYLES = ['empty', 'comments', 'one-key', 'all', 'blanks', 'semicolon', 'no-transport', 'tpm-only', 'pib-only', 'no-pib']
-STORES = ['scheme-only', 'absolute', 'rel-conf', 'rel-cwd', 'missing']
+STORES = ['scheme-only', 'absolute', 'rel-conf', 'rel-cwd', 'missing', 'abs-hash', 'abs-semicolon', 'abs-percent', 'abs-colon']
+ODD = {'abs-hash': ' #2', 'abs-semicolon': ' ;old', 'abs-percent': '%b 100%', 'abs-colon': ':b'}      # existing directories with such names
 
 
 def store_value(kind, which, tag):
@@ -136,6 +137,8 @@ def store_value(kind, which, tag):
         return scheme
     if kind == 'absolute':
         return f'{scheme}:/data/{which}-{tag}'
+    if kind in ODD:
+        return f'{scheme}:/data/{which}-{tag}{ODD[kind]}'
     if kind == 'rel-conf':
         return f'{scheme}:relc-{which}-{tag}'
     if kind == 'rel-cwd':
@@ -164,6 +167,8 @@ def build_world(envmask, filemask, style, store, defaults_exist, old_sock):
     for tag in ['env'] + [f'f{i}' for i in range(4)]:
         for which in ('pib', 'tpm'):
             dirs.add(f'/data/{which}-{tag}')
+            for odd in ODD.values():
+                dirs.add(f'/data/{which}-{tag}{odd}')
             dirs.add(f'relw-{which}-{tag}')                 # exists relative to the working directory, as given
             if conf is not None:
                 dirs.add(posixpath.join(posixpath.dirname(conf), f'relc-{which}-{tag}'))
@@ -303,7 +308,7 @@ def plan(tier, seed):
                 'some setting, or a store location that is not used as given.',
         'bounds': {'worlds': n, 'styles': STYLES, 'store_kinds': STORES, 'face_uris': len(FACE_URIS)},
         'assumptions': ['when neither the given nor the platform default store location exists the statement is silent: only the scheme is compared',
-                        'values contain at most one colon after the scheme (POSIX paths)', 'Linux platform class'],
+                        'Linux platform class'],
     }
 
 
